@@ -133,7 +133,7 @@ func runScenario(t fataler, full *util.MemoryNodeDB, root []byte, model map[stri
 
 	// repair
 	var donor *util.MemoryNodeDB
-	if donorMode == "exact" {
+	if strings.HasPrefix(donorMode, "exact") {
 		keep := map[string]bool{}
 		_ = full.Iterate(context.Background(), func(ctx context.Context, key util.Key, node util.Node) error {
 			if !removed[string(key)] {
@@ -151,11 +151,16 @@ func runScenario(t fataler, full *util.MemoryNodeDB, root []byte, model map[stri
 		return nil
 	})
 	rep := mptkit.NewTrie(damaged, version, root)
-	if err := rep.MergeDB(donor, root, nil); err != nil {
+	if strings.HasSuffix(donorMode, "+MergeState") {
+		// the other sync path: bulk copy of the donor store into the trie's store
+		if err := util.MergeState(context.Background(), donor, damaged); err != nil {
+			t.Fatalf("%s: MergeState: %v", desc(), err)
+		}
+	} else if err := rep.MergeDB(donor, root, nil); err != nil {
 		t.Fatalf("%s: MergeDB: %v", desc(), err)
 	}
 	if !bytes.Equal(rep.GetRoot(), root) {
-		t.Fatalf("%s: root changed by MergeDB", desc())
+		t.Fatalf("%s: root changed by the repair", desc())
 	}
 	fresh := mptkit.NewTrie(damaged, version, root)
 	has, err = fresh.HasMissingNodes(context.Background())
@@ -167,9 +172,11 @@ func runScenario(t fataler, full *util.MemoryNodeDB, root []byte, model map[stri
 		t.Fatalf("%s: after repair content %s (%v), want %s", desc(), mptkit.Show(content), err, mptkit.Show(model))
 	}
 	// the merging trie itself reads the full content too
-	content, err = mptkit.Content(rep)
-	if err != nil || !mptkit.EqualContent(content, model) {
-		t.Fatalf("%s: merging trie reads %s (%v) after MergeDB", desc(), mptkit.Show(content), err)
+	if !strings.HasSuffix(donorMode, "+MergeState") {
+		content, err = mptkit.Content(rep)
+		if err != nil || !mptkit.EqualContent(content, model) {
+			t.Fatalf("%s: merging trie reads %s (%v) after MergeDB", desc(), mptkit.Show(content), err)
+		}
 	}
 	n := 0
 	_ = donor.Iterate(context.Background(), func(ctx context.Context, key util.Key, node util.Node) error {
@@ -260,7 +267,7 @@ func TestMissingNodesAndRepair(t *testing.T) {
 		for i, removed := range sets {
 			// every enumerated set runs at the drawn version, and at the other two in rotation
 			version := versions[(vi+i)%3]
-			donorMode := []string{"exact", "superset"}[i%2]
+			donorMode := []string{"exact", "superset", "exact+MergeState", "superset+MergeState"}[i%4]
 			interior := false
 			tops := 0
 			for k := range removed {
@@ -288,5 +295,57 @@ func TestMissingNodesAndRepair(t *testing.T) {
 				ev.Sample(scenario{Ops: ops, V0: v0, Version: version, Removed: keysOf(removed), Donor: donorMode})
 			}
 		}
+	})
+}
+
+// Large tries (more than 256 nodes, the store batch size): whole subtrees removed, repaired through both sync paths.
+func TestLargeRepair(t *testing.T) {
+	ev.Rapid(t, 4, 60)
+	rapid.Check(t, func(rt *rapid.T) {
+		full := util.NewMemoryNodeDB()
+		mpt := mptkit.NewTrie(full, 0, nil)
+		model := map[string][]byte{}
+		n := gen.Uniform(rt, 300, 700, "nkeys")
+		for i := 0; i < n; i++ {
+			p := fmt.Sprintf("%02x%02x%02x", (i*37)%256, (i*11)%256, i%256)
+			v := []byte{byte(i), byte(i >> 8), 7}
+			if _, err := mpt.Insert(util.Path(p), mptkit.Val(v)); err != nil {
+				rt.Fatalf("HARNESS: %v", err)
+			}
+			model[p] = v
+		}
+		root := append([]byte(nil), mpt.GetRoot()...)
+		w := refmpt.WalkFrom(root, mptkit.GetterOf(full), false)
+		// remove everything below some children of the root (hundreds of nodes)
+		removed := map[string]bool{}
+		rn := w.Reachable[string(root)]
+		var tops []string
+		if rn.Type == refmpt.TBranch {
+			for _, c := range rn.Children {
+				if c != nil {
+					tops = append(tops, string(c))
+				}
+			}
+		} else if rn.Type == refmpt.TExt {
+			tops = append(tops, string(rn.Child))
+		}
+		for _, tp := range tops {
+			if gen.Chance(rt, 60, "dropsubtree") {
+				subtree(w, tp, removed)
+			}
+		}
+		if len(removed) <= 256 {
+			for _, tp := range tops {
+				subtree(w, tp, removed)
+			}
+		}
+		version := int64(gen.Pick(rt, []int{0, 3}, "version"))
+		mode := gen.Pick(rt, []string{"exact", "superset", "exact+MergeState", "superset+MergeState"}, "mode")
+		desc := func() string {
+			return fmt.Sprintf("large trie of %d keys (%d nodes), %d nodes removed, version %d, donor %s", n, len(w.Reachable), len(removed), version, mode)
+		}
+		runScenario(rt, full, root, model, removed, version, mode, desc)
+		ev.Case(desc(), true, "large-repair>256-nodes", "donor:"+mode)
+		ev.Sample(map[string]any{"keys": n, "nodes": len(w.Reachable), "removed": len(removed), "donor": mode, "version": version})
 	})
 }
